@@ -161,10 +161,10 @@ Proof.
 Qed.
 
 Lemma v_date_shape v dbv :
-  v <> PNone -> wf v = true -> kind_ok TDate v = true -> v_date v = Ok dbv ->
+  v <> PNone -> wf v = true -> v_date v = Ok dbv ->
   exists y m d, dbv = PDate y m d /\ valid_date y m d = true.
 Proof.
-  intros Hv Hwf Hk H. destruct v; try congruence; cbn in Hk; try discriminate; try (cbn in H; discriminate).
+  intros Hv Hwf H. destruct v; try congruence; try (cbn in H; discriminate).
   - (* str *) unfold v_date in H. destruct (v_datetime_to gen_format_date (PStr s)) as [r|] eqn:E; [|discriminate].
     destruct (datetime_to_str _ _ _ E) as (y & m & d & h & mi & se & us & -> & Hd & Ht). cbn in H. inv H. eauto.
   - (* date *) cbn in H. inv H. cbn in Hwf. eauto.
@@ -182,31 +182,42 @@ Proof.
 Qed.
 
 Lemma v_time_shape v dbv :
-  v <> PNone -> wf v = true -> kind_ok TTime v = true -> v_time v = Ok dbv ->
-  exists h mi s us, dbv = PTime h mi s us false /\ valid_time h mi s us = true.
+  v <> PNone -> wf v = true -> v_time v = Ok dbv ->
+  exists h mi s us tz, dbv = PTime h mi s us tz /\ valid_time h mi s us = true /\ (kind_ok TTime v = true -> tz = false).
 Proof.
-  intros Hv Hwf Hk H. destruct v; try congruence; cbn in Hk; try discriminate; try (cbn in H; discriminate).
+  intros Hv Hwf H. destruct v; try congruence; try (cbn in H; discriminate).
   - (* str *) unfold v_time in H. destruct (v_datetime_to gen_format_time (PStr s)) as [r|] eqn:E; [|discriminate].
-    destruct (datetime_to_str _ _ _ E) as (y & m & d & h & mi & se & us & -> & Hd & Ht). cbn in H. inv H. eauto 6.
-  - (* time *) cbn in H. inv H. cbn in Hwf. destruct tz; [discriminate|]. eauto 6.
-  - (* datetime *) cbn in H. inv H. cbn in Hwf. apply andb_true_iff in Hwf. destruct Hwf. eauto 6.
+    destruct (datetime_to_str _ _ _ E) as (y & m & d & h & mi & se & us & -> & Hd & Ht). cbn in H. inv H.
+    exists h, mi, se, us, false. auto.
+  - (* time *) cbn in H. inv H. cbn in Hwf. exists h, mi, s, us, tz. repeat split; auto.
+    cbn. now destruct tz.
+  - (* datetime *) cbn in H. inv H. cbn in Hwf. apply andb_true_iff in Hwf. destruct Hwf.
+    exists h, mi, s, us, false. auto.
   - (* timedelta *) cbn in H. destruct (Z.eqb days 0); inv H. cbn in Hwf. apply andb_true_iff in Hwf. destruct Hwf.
-    do 4 eexists. split; [reflexivity|]. now apply delta_time_valid.
+    do 4 eexists. exists false. split; [reflexivity|]. split; [now apply delta_time_valid|auto].
 Qed.
 
-Lemma exact_datetime C T y m d h mi s us :
+(* a datetime, aware or not: the naive text is stored; R relates the cached value to the naive one read back *)
+Lemma exact_gen_datetime (R : pyval -> pyval -> Prop) C T y m d h mi s us tz :
   (T = TDateTime \/ T = TTimestamp) -> valid_date y m d = true -> valid_time h mi s us = true ->
-  exact C T (PDateTime y m d h mi s us false).
+  R (PDateTime y m d h mi s us tz) (PDateTime y m d h mi s us false) ->
+  exact_gen R C T (PDateTime y m d h mi s us tz).
 Proof.
-  intros HT Hd Ht.
-  apply (exact_numeric_text C T (dt_text (stamp_of_dt y m d h mi s us)) _ (PDateTime y m d h mi s us false)).
+  intros HT Hd Ht HR.
+  apply (exact_gen_numeric_text R C T (dt_text (stamp_of_dt y m d h mi s us)) _
+           (PDateTime y m d h mi s us tz) (PDateTime y m d h mi s us false)).
   - destruct HT; subst; reflexivity.
   - cbn [literal]. now rewrite conv_datetime_char.
   - apply dt_text_chars.
   - apply dt_text_not_numeric.
   - destruct HT; subst; reflexivity.
   - destruct HT; subst; cbn [to_python]; now apply read_datetime_text.
+  - exact HR.
 Qed.
+Lemma exact_datetime C T y m d h mi s us :
+  (T = TDateTime \/ T = TTimestamp) -> valid_date y m d = true -> valid_time h mi s us = true ->
+  exact C T (PDateTime y m d h mi s us false).
+Proof. intros. apply exact_gen_datetime; try assumption. now left. Qed.
 Lemma exact_date C y m d : valid_date y m d = true -> exact C TDate (PDate y m d).
 Proof.
   intros Hd. apply (exact_numeric_text C TDate (date_text (stamp_of_dt y m d 0 0 0 0)) _ (PDate y m d)).
@@ -217,13 +228,20 @@ Proof.
   - reflexivity.
   - cbn [to_python]. now apply read_date_text.
 Qed.
-Lemma exact_time C h mi s us : valid_time h mi s us = true -> exact C TTime (PTime h mi s us false).
+Lemma exact_gen_time (R : pyval -> pyval -> Prop) C h mi s us tz :
+  valid_time h mi s us = true -> R (PTime h mi s us tz) (PTime h mi s us false) ->
+  exact_gen R C TTime (PTime h mi s us tz).
 Proof.
-  intros Ht. apply (exact_numeric_text C TTime (time_text (stamp_of_dt 0 0 0 h mi s us)) _ (PTime h mi s us false)).
+  intros Ht HR.
+  apply (exact_gen_numeric_text R C TTime (time_text (stamp_of_dt 0 0 0 h mi s us)) _
+           (PTime h mi s us tz) (PTime h mi s us false)).
   - reflexivity.
   - cbn [literal]. now rewrite conv_time_char.
   - apply time_text_chars.
   - apply time_text_not_numeric.
   - reflexivity.
   - cbn [to_python]. now apply read_time_text.
+  - exact HR.
 Qed.
+Lemma exact_time C h mi s us : valid_time h mi s us = true -> exact C TTime (PTime h mi s us false).
+Proof. intros. apply exact_gen_time; [assumption|now left]. Qed.
